@@ -202,6 +202,9 @@ func c01Run(c *mc.Ctx) {
 				for _, env := range seqEnvs {
 					c01Check(c, c01Case{Vals: vals, Env: env, Mode: "stream"}, false, false, true)
 				}
+				if len(vals) >= 2 {
+					c01Check(c, c01Case{Vals: vals, Env: seqEnvs[len(vals)%len(seqEnvs)], Mode: "stream", Each: true}, false, false, true)
+				}
 			}
 		}
 	}
@@ -235,6 +238,15 @@ func c01Run(c *mc.Ctx) {
 		}
 		c.Distinct("run", ri)
 		c01Check(c, c01Case{Vals: r, Mode: "all"}, true, true, false)
+		if len(r) <= 1100 { // a Flush after every value (>= 11 flushes on one writer), a Release after every value
+			c01Check(c, c01Case{Vals: r, Mode: "all", Each: true}, true, true, false)
+			for _, env := range []EnvCfg{{}, {Chunk: 1}, {Chunk: 4097, ErrWithLast: true}} {
+				if env.Chunk == 1 && len(r) > 20 {
+					continue
+				}
+				c01Check(c, c01Case{Vals: r, Env: env, Mode: "stream", Each: true}, false, false, true)
+			}
+		}
 		for _, env := range []EnvCfg{{}, {Chunk: 4097, ErrWithLast: true}, {Chunk: 100, ZeroReads: 1}} {
 			c01Check(c, c01Case{Vals: r, Env: env, Mode: "stream"}, false, false, true)
 		}
